@@ -133,6 +133,63 @@ def two_ticks_only_small(n, t0, t1) -> bool:
     return True
 
 
+# ---- the event itself is the root value, whatever it is (falsy values, None, containers) and whatever the initial value was
+EVENT_VALUES = (0, "", False, {}, [], None, 0.0, 1, "x", {"echo": "own"}, [0])
+INITIALS = (None, {"echo": "INITIAL", "n": 99}, 5)
+
+
+def echo_schema(source_holder, async_resolver):
+    from py_gql.schema import String
+
+    def echo(root, ctx, info):
+        return "root=%r" % (root,)
+
+    def plain_n(root, ctx, info):
+        return root.get("n") if isinstance(root, dict) else None
+
+    def sub(root, ctx, info):
+        source_holder.append(("initial", root))
+        return source_holder[0]
+
+    async def asub(root, ctx, info):
+        await asyncio.sleep(0)
+        return sub(root, ctx, info)
+    sub_type = ObjectType("Subscription", [Field("echo", String, resolver=echo, subscription_resolver=(asub if async_resolver else sub))])
+    return Schema(ObjectType("Query", [Field("a", Int)]), subscription_type=sub_type)
+
+
+def _event_values(n: int, e0: int, e1: int, e2: int, init: int, asyncres: bool) -> bool:
+    """
+    pre: 0 <= n <= 3 and 0 <= e0 < len(EVENT_VALUES) and 0 <= e1 < len(EVENT_VALUES) and 0 <= e2 < len(EVENT_VALUES) and 0 <= init < len(INITIALS)
+    pre: shard_of(e0 + n)
+    post: _
+    """
+    N = concrete_int(n, 0, 3)
+    raw = (e0, e1, e2)
+    for i in range(N, 3):
+        if raw[i] != 0:
+            return result(True, False)
+    evs = [pick(raw[i], EVENT_VALUES) for i in range(N)]
+    INIT, AR = pick(init, INITIALS), (True if asyncres else False)
+    with untraced():
+        src = Source(evs, [0] * N)
+        holder = [src]
+        schema = echo_schema(holder, AR)
+        loop = DetLoop()
+        try:
+            async def main():
+                rt = AsyncIORuntime(loop=loop, execute_blocking_functions_in_thread=False)
+                stream = await subscribe(schema, parse("subscription { echo }"), runtime=rt, initial_value=INIT)
+                return [(r.response().get("data"), [str(e) for e in r.errors]) async for r in stream]
+            got = loop.run_until_complete(main())
+        finally:
+            loop.close()
+        exp = [({"echo": "root=%r" % (e,)}, []) for e in evs]
+        # the subscription resolver (CreateSourceEventStream) is the one that sees the initial value, exactly once
+        ok = got == exp and src.anext_calls == N + 1 and holder[1:] == [("initial", INIT)]
+    return result(ok, N >= 1)
+
+
 REFUSALS = ("two-root-fields", "no-subscription-resolver", "query-operation", "blocking-runtime", "mutation-like-unknown-op")
 
 
@@ -178,6 +235,13 @@ CONDITIONS = [
         assumptions=["DetLoop (time() == 0.0), real asyncio scheduling otherwise; stub source stream counts __anext__ calls",
                      "oracle: k-th result = selection executed with event k as root; errors of event k only"],
         witness={"n": 2, "o0": 0, "o1": 2, "o2": 0, "o3": 0, "t0": 0, "t1": 1, "t2": 0, "t3": 0, "asyncres": False, "asyncfields": False},
+    ),
+    Cond(
+        name="event_values", fn=_event_values, quick=120, thorough=300, per_path=60, shards_quick=14, shards_thorough=14,
+        bound="every stream of 0..3 events drawn from %d event values (falsy scalars 0, '', False, 0.0, empty dict / list, None, truthy scalars, containers) x %d initial values x sync/async subscription resolver: "
+              "the k-th result is the selection executed with event k ITSELF as root; the initial value only reaches the subscription resolver, once" % (len(EVENT_VALUES), len(INITIALS)),
+        symbolic={"n": "choice", "e0..e2": "choice: event values", "init": "choice: initial value", "asyncres": "choice"},
+        witness={"n": 2, "e0": 0, "e1": 5, "e2": 0, "init": 1, "asyncres": False},
     ),
     Cond(
         name="refusals", fn=_refusals, quick=60, thorough=60,
